@@ -165,10 +165,11 @@ def boundaryHeadings : (last new : List (Option (Option String))) → (lvl : Nat
   | l :: ls, n :: ns, lvl, force =>
     match n with
     | some (some s) =>      -- `val = new_values.get(col)` is a real value
-      let lastStr := match l with
-        | some v => strOf v
-        | none => "None"     -- `last_values.get(col)` is None → str(None)
-      if s != lastStr || force then
+      -- `last_val is None` (key absent, or a null remembered) always renders
+      let differs := match l with
+        | some (some v) => s != v
+        | _ => true
+      if differs || force then
         Block.heading lvl s :: boundaryHeadings ls ns (lvl + 1) true
       else boundaryHeadings ls ns (lvl + 1) force
     | _ => boundaryHeadings ls ns (lvl + 1) force     -- None (absent or null): `continue`
